@@ -43,7 +43,16 @@ def setup():
     print(out.strip())
     if not ok:
         print("gen_tables failed"); return 2
-    mods = ["Simfile", "Simfile.Driver"] + sorted({m for v in core.PROPS_INDEX.values() for m in [v["module"]] + v.get("extra_modules", [])})
+    okc, outc = core.gen_code()
+    print(outc.strip())
+    gmods = []
+    try:
+        st = json.load(open(os.path.join(core.LEAN, "Simfile", "Gen", "code_status.json")))
+        short = sorted({e["module"].split(".")[-1] for e in st.values()})
+        gmods = ["Simfile.GenDiff.Rand"] + ["Simfile.Gen.Code." + m for m in short] + ["Simfile.Props.GenEq." + m for m in short]
+    except Exception as e:
+        print("code translator status unreadable: %s" % e)
+    mods = ["Simfile", "Simfile.Driver"] + sorted({m for v in core.PROPS_INDEX.values() for m in [v["module"]] + v.get("extra_modules", [])}) + gmods
     ok, out = core.lake_build(mods)
     print(out[-3000:])
     return 0 if ok else 2
@@ -82,8 +91,12 @@ def main():
         A.setdefault("broken", []).extend("table extraction: " + t for t in table_problems)
         A["ok"] = False
 
+    CT = core.code_tie(pid, seed, thorough=(tier == "thorough")) if drv_ok else {"functions": [], "ties": [], "notes": ["skipped: models do not build"], "proved": 0, "total": 0}
+    A["code_tie"] = CT
     mod = importlib.import_module("adapters." + pid.lower())
     changed = source_changed(pid)
+    if CT["total"] and CT["proved"] < CT["total"] and tier == "quick":
+        Ctx.boost = 4          # a translated function is no longer proved equal to the model: search deeper
     if changed and tier == "quick":
         Ctx.boost = 4          # the code this property is anchored in changed since the fingerprints were taken: search deeper
     if os.environ.get("VERIF_BOOST", "").isdigit():
@@ -142,6 +155,9 @@ def main():
         listed = {f["id"] for f in ctx.findings}
         return [v for v in vs if v.get("finding_id") not in listed or v.get("finding_id") is None]
 
+    res.tie_breaks.extend(CT["ties"])
+    for nline in CT["notes"]:
+        print("note: translator: " + nline)
     viol = unlisted(res.violations)
     broken = list(A.get("broken", []))
     ties = res.tie_breaks
